@@ -7,7 +7,11 @@
    SPLIT): for every stateful catalogue model, a 40-step series is run whole, 2-way split at EVERY point
    (39 cuts), 3-5-way split at random points (1-step segments included) and split with EMPTY segments (cut at 0, cut at
    the end, repeated cut points: a call over zero time steps must return the states unchanged), every call starting from the state
-   array the previous call returned (same model object + same array, or fresh object + copied array).
+   array the previous call returned: same model object + same array; fresh object + copied array; or ARRAYS AS VIEWS,
+   the way a driver that keeps all cells in one state table and one long record splits a run: the carried state array
+   is every second row (strided) or a row block not starting at row 0 (offset) of a larger table, the inputs of a call
+   are a time window of the one long input record and its outputs a time window of one long output record; whole =
+   split must hold there too, the table outside the view must stay untouched and the two cells of the view agree.
    LONG runs (a counter / budget / run-length dependent quantity carried across one Run call shows only there): three
    stiff Storage reservoirs of 1825 daily steps (> 1e6 accepted sub-steps in one call, measured on the extracted kernel)
    and one 1000-step run of every other stateful model, whole vs split at the middle, at 1/3 + 2/3, at a 1-step
@@ -44,6 +48,8 @@ N = 40
 LIMIT = 1e-3        # massBalanceLimit of storage_routing.go
 KEY_SAC = 'sacramento-uh-buffer'
 KEY_DND = 'dnd-prev-volume'
+# how the carried state array (and the inputs / outputs of a call) reach Run(): see harness/cmd/owrun/hotstart.go
+MODES = ['same', 'fresh', 'strided', 'offset']
 CTX = {}
 
 
@@ -250,6 +256,21 @@ def evaluate(c, cases, cuts, lines, mlines, mcuts, impl, mod, stats, tag):
         w = ri[0]
         finals.append(w[2])
         nt = nontrivial(w)
+        mode = lines[i].split(' ', 4)[3]
+        st['cases_by_mode'] = st.get('cases_by_mode', {})
+        st['cases_by_mode'][mode] = st['cases_by_mode'].get(mode, 0) + 1
+        par = parent_part(li)
+        if mode in ('strided', 'offset'):
+            # arrays as views: the state table outside the view must be untouched, both cells of the view identical
+            c.count((m, cs['params'], cs['states'], cs['inputs'], 'view-' + mode), nontrivial=nt)
+            if par is None:
+                c.violation('view_%s_%s_%d.json' % (tag, m, i), dict(desc, kind='view-mode-answer-without-PARENT-part', answer=li[-200:]))
+            else:
+                st['view_parent_checks'] = st.get('view_parent_checks', 0) + par[0]
+                if par[1] > 0:
+                    c.violation('view_%s_%s_%d.json' % (tag, m, i),
+                                dict(desc, kind='state-table-or-second-cell-damaged-through-a-view', mode=mode, failed_checks=par[1],
+                                     first_problem=par[2]))
         # ---- oracle: every split of the implementation against its own whole run
         for j, r in enumerate(ri[1:]):
             c.count((m, cs['params'], cs['states'], cs['inputs'], ks[j]), nontrivial=nt)
@@ -328,6 +349,11 @@ def replay(path):
         allcuts.append([int(x) for x in toks[pos + 1:pos + 1 + m]])
         pos += 1 + m
     bad = known = bits = 0
+    par = parent_part(res)
+    if par is not None:
+        print('arrays as views (%s): %d checks of the state table / second cell, %d failed %s' % (toks[3], par[0], par[1], par[2]))
+        if par[1] > 0:
+            bad += 1
     for j, r in enumerate(rs[1:]):
         if kresults_agree(rs[0], r):
             bits += 1
@@ -383,7 +409,7 @@ def main():
     lsteps = 1825 if quick else 2920
     lcases = long_storage_cases(rng, lsteps)
     lcuts = [long_cuts(cs) for cs in lcases]
-    llines = [split_line(cs, rng.choice(['same', 'fresh']), ks) for cs, ks in zip(lcases, lcuts)]
+    llines = [split_line(cs, rng.choice(MODES), ks) for cs, ks in zip(lcases, lcuts)]
     nmodel = 1 if quick else len(lcases)
     kc = {}
 
@@ -409,7 +435,7 @@ def main():
                 mcuts.append(rng.sample(two, 5) + multi[:2] + [k for k in ks if has_empty(k)][:4])
             else:
                 mcuts.append(ks)
-        modes = [rng.choice(['same', 'fresh']) for _ in cases]
+        modes = [rng.choice(MODES) for _ in cases]
         lines = [split_line(cs, md, ks) for cs, md, ks in zip(cases, modes, cuts)]
         mlines = [split_line(cs, md, ks) for cs, md, ks in zip(cases, modes, mcuts)]
         impl = run_filtered(owrun, lines, 'CRASH', env=GOENV)
@@ -499,7 +525,9 @@ def main():
                      'second batch, from final states the implementation returned); each case is run whole, 2-way split at every one of '
                      'the 39 cut points, at %d random 3-5-way cut sets (1-step segments forced in 60 %% of them) and at 6 cut sets with EMPTY '
                      'segments (cut at 0, cut at the end, a repeated cut point, mixtures of these), each call starting from '
-                     'the state array returned by the previous one (same object/array or fresh object/copied array, chosen per case), '
+                     'the state array returned by the previous one (chosen per case: same object/array; fresh object/copied array; state '
+                     'array = strided or offset row VIEW of a larger table with inputs/outputs as time windows of one long record, table '
+                     'outside the view and second cell checked), '
                      'through sim.Catalog (harness command SPLIT) and through the extracted Coq kernels (OCaml driver command SPLIT); '
                      'one evaluation = one (case, cut set) split run compared with the whole run; non-trivial = the whole run returned and '
                      'has at least one non-zero output; distinct by (model, parameters, states, inputs, cut set); plus LONG runs: three stiff '
@@ -510,7 +538,9 @@ def main():
     known_run = sum(s['known_finding_runs'] for s in stats.values())
     c.finish(extra_cov={'per_model': stats, 'series_length': N, 'cut_sets_per_case': N - 1 + nmulti + 6, 'cut_sets_with_empty_segments_per_case': 6,
                         'split_runs_with_empty_segments': sum(s.get('split_runs_with_empty_segments', 0) for s in stats.values()),
-                        'storage_routing_tolerance_m3_per_cut': 2 * LIMIT,
+                        'storage_routing_tolerance_m3_per_cut': 2 * LIMIT, 'state_array_modes': MODES,
+                        'cases_by_mode': {md: sum(s.get('cases_by_mode', {}).get(md, 0) for s in stats.values()) for md in MODES},
+                        'view_parent_checks': sum(s.get('view_parent_checks', 0) for s in stats.values()),
                         'long_storage_runs': long_storage, 'long_runs_per_model': long_stats, 'long_run_steps': LN,
                         'known_finding_split_runs': known_run, 'exhaustive': False,
                         'oracle': 'bit-identical outputs and final states (StorageRouting: 2*massBalanceLimit per cut; Sacramento '
